@@ -160,4 +160,45 @@ PROPS = {
         'assumptions': ["a flow's datapath handle is used only inside new_flow / on_report / close (not from Drop, not smuggled out)", 'program uids are canonicalised through the install messages; DROP and INSTALL batches are sorted before comparison (HashMap order)'],
         "nontrivial": NT_C18,
     },
+    "C10": {
+        "coq": "Properties/C10.v",
+        "level_text": "C10_compiler_total proves for every byte string and override list that compile_and_serialize's model returns an image or an "
+                      "error — never Panic (each unreachable!/unwrap/assert/overflow site of the modelled code is a Panic outcome) and never out of "
+                      "fuel (C10_parser_terminates: the parser always terminates); C10_runtime_reports: an uncompilable program makes run return Err.",
+        "level_note": "Coq kernel; no axioms; hand-written character-level model of the nom parsers (src/lang/ast.rs, prog.rs), of Scope/compile_expr/compile_prog (datapath.rs), lang::compile (mod.rs) and the image encoder (serialize.rs); tied to the code by compiling the same byte strings with portus::lang and with the extracted model and comparing image bytes and the scope's answer (class, index, volatility, type and initial value) for every name occurring in the text.",
+        "streams": ["c10"],
+        "rule": "exhaustive token sequences (26-token alphabet) up to length 2 raw and up to length 2-3 in five holes of a valid skeleton, a sixth of "
+                "the length-3 raw ones (thorough: all up to 4), random sequences of 4-12 tokens, valid programs with one token replaced/inserted/"
+                "deleted, ill-placed constructs, counter limits (15..300 declarations/locals), nesting depth up to 64, byte-level mutations incl. "
+                "invalid UTF-8 and non-ASCII letters whose low byte is alphanumeric, raw random bytes; non-trivial = the source gets past the "
+                "parser's first form (result differs between at least ... ) — counted as: accepted programs plus rejected ones of length >= 12 bytes",
+        "nontrivial": lambda r: r["impl"].startswith("OK") or len(r["arg"].split(" ")[0]) >= 24,
+        "assumptions": ["native stack exhaustion on deep nesting is a runtime matter the model cannot exhibit; the stream runs depth 64"],
+    },
+    "C13": {
+        "coq": "Properties/C13.v",
+        "level_text": "C13_declared_slots proves for every declaration list with names distinct from each other and from the built-ins that report "
+                      "variable k gets report slot k (exactly 0..n-1), control variable k control slot k, with declared volatility and initial value, "
+                      "built-ins untouched; C13_builtin_primitives/implicits pin the ABI by computation.",
+        "level_note": "Coq kernel; no axioms; hand-written character-level model of the nom parsers (src/lang/ast.rs, prog.rs), of Scope/compile_expr/compile_prog (datapath.rs), lang::compile (mod.rs) and the image encoder (serialize.rs); tied to the code by compiling the same byte strings with portus::lang and with the extracted model and comparing image bytes and the scope's answer (class, index, volatility, type and initial value) for every name occurring in the text.",
+        "streams": ["limits", "compile"],
+        "rule": "declaration lists with 0/1/15/16/17 report x 0/1/15/16/17 control x 0/1/5/6/7 local variables in three order styles (Report block, "
+                "legacy Report.x, mixed) with overrides, operator chains around the temporary limit, plus generated programs; "
+                "non-trivial = accepted program declaring at least two variables; distinct by source",
+        "nontrivial": lambda r: r["impl"].startswith("OK") and (r["impl"].count(",R") + r["impl"].count(",C") + r["impl"].count(" R") + r["impl"].count(" C")) >= 2,
+        "assumptions": [],
+    },
+    "C14": {
+        "coq": "Properties/C14.v",
+        "level_text": "C14_numeral (a numeral is its value or a hard failure, never a name), C14_small_accepted / C14_infinity / C14_unencodable_rejected / "
+                      "C14_read_back_exact (the immediate the datapath reads back is exactly the literal's denotation), C14_no_silent (a serialized program "
+                      "contains only encodable immediates), C14_initial_values (overrides and initial values go through the same encoder).",
+        "level_note": "Coq kernel; no axioms; hand-written character-level model of the nom parsers (src/lang/ast.rs, prog.rs), of Scope/compile_expr/compile_prog (datapath.rs), lang::compile (mod.rs) and the image encoder (serialize.rs); tied to the code by compiling the same byte strings with portus::lang and with the extracted model and comparing image bytes and the scope's answer (class, index, volatility, type and initial value) for every name occurring in the text.",
+        "streams": ["c14"],
+        "rule": "literals: every 53rd value of 0..65535 (thorough: all), 2^k-1, 2^k, 2^k+1 for k<=70, 20-30 digit numerals, leading zeros, random "
+                "u31/u32/u64/over-long values, each in five positions (control and report definition, bind value, comparison operand, arithmetic operand), "
+                "and u32 overrides of control and report variables; non-trivial = every case (each is a distinct literal/position pair)",
+        "nontrivial": lambda r: True,
+        "assumptions": [],
+    },
 }
